@@ -49,6 +49,8 @@ def build_harness(race=False):
         cmd = ["go1.26", "test", "-c", "-tags", "verif", "-o", out]
         if race:
             cmd.append("-race")
+        elif os.environ.get("VERIF_COVER_DIR"):      # bin/coverage: which statements of ory/fosite do the checks reach?
+            cmd += ["-cover", "-covermode=set", "-coverpkg=github.com/ory/fosite/..."]
         cmd.append(".")
         t0 = time.time()
         p = subprocess.run(cmd, cwd=HARNESS, env=GOENV, capture_output=True, text=True)
@@ -65,7 +67,11 @@ def build_harness(race=False):
 def run_harness(binary, test, env, timeout=1800):
     e = dict(GOENV)
     e.update(env)
-    p = subprocess.run([binary, "-test.run", "^" + test + "$", "-test.timeout", "60m"], env=e, capture_output=True, text=True, timeout=timeout)
+    args = [binary, "-test.run", "^" + test + "$", "-test.timeout", "60m"]
+    if os.environ.get("VERIF_COVER_DIR") and ".race." not in binary:
+        os.makedirs(os.environ["VERIF_COVER_DIR"], exist_ok=True)
+        args.append("-test.coverprofile=" + os.path.join(os.environ["VERIF_COVER_DIR"], f"cov.{os.getpid()}.{time.time_ns()}.out"))
+    p = subprocess.run(args, env=e, capture_output=True, text=True, timeout=timeout)
     return p
 
 
@@ -108,6 +114,7 @@ def tlc(wd, module, cfg_text, args, env=None, heap="4g", timeout=3600, cfg_name=
     try:
         p = subprocess.run(cmd, cwd=wd, env=e, capture_output=True, text=True, timeout=timeout)
     except subprocess.TimeoutExpired:
+        shutil.rmtree(meta, ignore_errors=True)
         raise Indeterminate(f"TLC timed out after {timeout}s: {' '.join(cmd)}")
     shutil.rmtree(meta, ignore_errors=True)
     return p.returncode, p.stdout + p.stderr
